@@ -874,3 +874,855 @@ def rule_hoist(ctx, floor=2):   # pending finding
     pc = ast.parse("def analyse_types(self, env):\n    if self.cascade:\n        self.operand2 = self.operand2.coerce_to_simple(env)\n    return self\n").body[0]
     r.positive_control(bool(hoisted_pairs(pc)), 'operand2 coerced alone')
     return r
+
+
+# ================================================================================================================ C20-REWRITE / C20-INPLACE / C20-SHORT
+# Three tree rewrites / emitters outside Optimize.py, decided on complete families of small abstract inputs.  The *source* of the repository
+# function is interpreted by the checker's own evaluator (sC21.MiniPy) on trees built from the repository's node classes with opaque leaves;
+# the rewritten tree (or the emitted statement skeleton) is then evaluated by the checker under the evaluation-order semantics that C20-ORDER
+# establishes for the node classes involved (let: temporary first, then the body; parallel assignment: all right-hand sides, then all targets;
+# displays / binary operators: operands left to right) and compared with the language reference applied to the *original* statement.
+from .sC21 import MiniPy, Obj, StubClass, HostFn, Unmodelled, PyRaise, visitor_overrides
+
+
+def _analysis_overrides():
+    """type analysis of operand nodes is outside these rules: analyse_* / coerce_* keep the operand sub-trees in place (ASSUMPTION of props/C20)"""
+    ident = lambda it, self, *a, **k: self
+    none = lambda it, self, *a, **k: None
+    o = dict(visitor_overrides())
+    for nm in ('analyse_types', 'analyse_target_types', 'analyse_expressions', 'coerce_to', 'coerce_to_simple', 'coerce_to_temp', 'coerce_to_pyobject', 'coerce_to_boolean'):
+        o[('Node', nm)] = ident
+    for nm in ('analyse_operation', 'analyse_declarations', 'analyse_target_declaration'):
+        o[('Node', nm)] = none
+    return o
+
+
+class _RwWorld:
+    def __init__(self, ix):
+        self.errors = []
+        rep = {'error': HostFn(lambda it, pos, msg, *a: self.errors.append(msg), 'error'), 'warning': HostFn(lambda it, *a, **k: None, 'warning')}
+        self.TypeStub = StubClass('TypeStub', attrs=dict(is_pyobject=True, is_cpp_class=False, is_memoryviewslice=False, is_ctuple=False, is_string=False, is_int=False))
+        types = {'*': lambda name: Obj(self.TypeStub, {'$tag': name})}
+        self.it = MiniPy(ix, stub_modules={'Errors': rep, 'ParseTreeTransforms': rep, 'Builtin': types, 'PyrexTypes': types}, family_overrides=_analysis_overrides())
+        self.pos = ('scenario.py', 1, 0)
+        self.pytype = Obj(self.TypeStub)
+
+    def node(self, mod_, cls_, **attrs):
+        attrs.setdefault('pos', self.pos)
+        return Obj(self.it.cls(mod_, cls_), attrs)
+
+    # expression shapes: ('call', f) | ('name', n) | ('attr', base, a) | ('index', base, idx) | ('lit', v) | ('tuple'|'list', [items]) | ('star', target)
+    def expr(self, e, typed=False):
+        k = e[0]
+        kw = {'type': self.pytype} if typed else {}
+        if k == 'call':
+            return self.node('ExprNodes', 'SimpleCallNode', function=self.node('ExprNodes', 'NameNode', name=e[1]), args=[], **dict(kw, **{'$tag': e[1]}))
+        if k == 'name':
+            return self.node('ExprNodes', 'NameNode', name=e[1], **dict(kw, **{'$tag': e[1]}))
+        if k == 'attr':
+            base = self.expr(e[1], typed) if isinstance(e[1], tuple) else self.node('ExprNodes', 'NameNode', name=e[1], **kw)
+            return self.node('ExprNodes', 'AttributeNode', obj=base, attribute=e[2], **dict(kw, **{'$tag': _show_expr(e)}))
+        if k == 'index':
+            return self.node('ExprNodes', 'IndexNode', base=self.expr(e[1], typed), index=self.expr(e[2], typed), **kw)
+        if k == 'lit':
+            return self.node('ExprNodes', 'IntNode', value=str(e[1]), **dict(kw, **{'$tag': str(e[1])}))
+        if k in ('tuple', 'list'):
+            return self.node('ExprNodes', 'TupleNode' if k == 'tuple' else 'ListNode', args=[self.expr(x, typed) for x in e[1]], mult_factor=None)
+        if k == 'star':
+            return self.node('ExprNodes', 'StarredUnpackingNode', target=self.expr(e[1], typed))
+        raise ValueError(k)
+
+
+def _show_expr(e):
+    k = e[0]
+    if k == 'call':
+        return e[1] + '()'
+    if k == 'name':
+        return e[1]
+    if k == 'attr':
+        return '%s.%s' % (_show_expr(e[1]) if isinstance(e[1], tuple) else e[1], e[2])
+    if k == 'index':
+        return '%s[%s]' % (_show_expr(e[1]), _show_expr(e[2]))
+    if k == 'lit':
+        return str(e[1])
+    if k == 'star':
+        return '*' + _show_expr(e[1])
+    inner = ', '.join(_show_expr(x) for x in e[1])
+    return '(%s)' % inner if k == 'tuple' else '[%s]' % inner
+
+
+# ---- language reference: T1 = T2 = ... = display
+def _ref_eval(e, ev):
+    k = e[0]
+    if k in ('call', 'attr'):
+        ev.append(_show_expr(e))
+        return ('val', _show_expr(e))
+    if k in ('name', 'lit'):
+        return ('val', _show_expr(e))
+    if k in ('tuple', 'list'):
+        return (k, tuple(_ref_eval(x, ev) for x in e[1]))
+    raise ValueError(k)
+
+
+def _ref_assign(t, v, stores):
+    k = t[0]
+    if k == 'name':
+        stores.append((t[1], v))
+        return
+    if k in ('tuple', 'list'):
+        if v[0] not in ('tuple', 'list'):
+            raise ValueError('an opaque value is unpacked')
+        items = list(v[1])
+        star = [i for i, x in enumerate(t[1]) if x[0] == 'star']
+        if star:
+            i = star[0]
+            after = len(t[1]) - i - 1
+            if len(items) < len(t[1]) - 1:
+                raise ValueError('too few values')
+            for x, y in zip(t[1][:i], items[:i]):
+                _ref_assign(x, y, stores)
+            _ref_assign(t[1][i][1], ('list', tuple(items[i:len(items) - after])), stores)
+            for x, y in zip(t[1][i + 1:], items[len(items) - after:]):
+                _ref_assign(x, y, stores)
+        else:
+            if len(items) != len(t[1]):
+                raise ValueError('%d values for %d targets' % (len(items), len(t[1])))
+            for x, y in zip(t[1], items):
+                _ref_assign(x, y, stores)
+        return
+    raise ValueError(k)
+
+
+class _TreeEval:
+    """evaluation of a rewritten statement tree: events (text, 'temp'|'inline'|'get'|'set'), stores, problems"""
+
+    def __init__(self, it):
+        self.it = it
+        self.events = []
+        self.stores = []
+        self.bound = {}
+        self.problems = []
+        self.phase = 'inline'
+
+    def isa(self, o, name):
+        return isinstance(o, Obj) and name in self.it.mro_names(o.cls)
+
+    def text(self, o):
+        g = self.it.getattr
+        if self.isa(o, 'ResultRefNode'):
+            return self.bound.get(id(o), ('?', None))[0]
+        if self.isa(o, 'NameNode'):
+            return g(o, 'name')
+        if self.isa(o, 'SimpleCallNode'):
+            return o.attrs['$tag'] + '()'
+        if self.isa(o, 'AttributeNode'):
+            return '%s.%s' % (self.text(g(o, 'obj')), g(o, 'attribute'))
+        if self.isa(o, 'IndexNode'):
+            return '%s[%s]' % (self.text(g(o, 'base')), self.text(g(o, 'index')))
+        return '<%s>' % o.cls.name
+
+    def expr(self, o, reads=False):
+        """-> symbolic value; `reads`: attribute / subscript reads are events of their own (augmented assignment family)"""
+        g = self.it.getattr
+        if self.isa(o, 'ResultRefNode'):
+            if id(o) not in self.bound:
+                self.problems.append(('temp-before-set', 'a temporary is used before the let that computes it'))
+                return ('val', '?')
+            return self.bound[id(o)][1]
+        if self.isa(o, 'SequenceNode'):
+            return ('tuple' if self.isa(o, 'TupleNode') else 'list', tuple(self.expr(x, reads) for x in g(o, 'args')))
+        if self.isa(o, 'SimpleCallNode'):
+            self.events.append((self.text(o), self.phase))
+            return ('val', self.text(o))
+        if self.isa(o, 'AttributeNode'):
+            if reads:
+                self.expr(g(o, 'obj'), reads)
+                self.events.append((self.text(o), 'get'))
+            else:
+                self.events.append((o.attrs.get('$tag'), self.phase))
+            return ('val', self.text(o) if reads else o.attrs.get('$tag'))
+        if self.isa(o, 'IndexNode'):
+            self.expr(g(o, 'base'), reads)
+            self.expr(g(o, 'index'), reads)
+            self.events.append((self.text(o), 'get'))
+            return ('val', self.text(o))
+        if self.isa(o, 'BinopNode'):
+            self.expr(g(o, 'operand1'), reads)
+            self.expr(g(o, 'operand2'), reads)
+            return ('val', 'binop')
+        if self.isa(o, 'NameNode') or self.isa(o, 'ConstNode'):
+            return ('val', o.attrs.get('$tag'))
+        raise Unmodelled('expression node %s in the rewritten tree' % o.cls.name)
+
+    def tshape(self, o):
+        g = self.it.getattr
+        if self.isa(o, 'NameNode'):
+            return ('name', g(o, 'name'))
+        if self.isa(o, 'StarredUnpackingNode'):
+            return ('star', self.tshape(g(o, 'target')))
+        if self.isa(o, 'SequenceNode'):
+            return ('tuple', [self.tshape(x) for x in g(o, 'args')])
+        raise Unmodelled('target node %s in the rewritten tree' % o.cls.name)
+
+    def target(self, o, v, reads=False):
+        g = self.it.getattr
+        if reads:
+            if self.isa(o, 'AttributeNode'):
+                self.expr(g(o, 'obj'), True)
+            elif self.isa(o, 'IndexNode'):
+                self.expr(g(o, 'base'), True)
+                self.expr(g(o, 'index'), True)
+            elif not self.isa(o, 'NameNode'):
+                raise Unmodelled('target node %s in the rewritten tree' % o.cls.name)
+            self.events.append((self.text(o), 'set'))
+            return
+        try:
+            _ref_assign(self.tshape(o), v, self.stores)
+        except ValueError as e:
+            self.problems.append(('routing', 'a target list is assigned a value it cannot unpack (%s)' % e))
+
+    def rhs_phase(self, o, reads):
+        g = self.it.getattr
+        if self.isa(o, 'SingleAssignmentNode'):
+            return [([g(o, 'lhs')], self.expr(g(o, 'rhs'), reads))]
+        if self.isa(o, 'CascadedAssignmentNode'):
+            return [(list(g(o, 'lhs_list')), self.expr(g(o, 'rhs'), reads))]
+        if self.isa(o, 'ParallelAssignmentNode'):
+            out = []
+            for st in g(o, 'stats'):
+                out += self.rhs_phase(st, reads)
+            return out
+        raise Unmodelled('statement node %s in the rewritten tree' % o.cls.name)
+
+    def stmt(self, o, reads=False):
+        g = self.it.getattr
+        if self.isa(o, 'LetNode'):
+            ref = g(o, 'lazy_temp')
+            te = g(o, 'temp_expression')
+            if te is not g(ref, 'expression'):
+                self.problems.append(('temp-before-set', 'a let evaluates an expression that is not the one its temporary stands for'))
+            old, self.phase = self.phase, 'temp'
+            v = self.expr(te, reads)
+            self.phase = old
+            self.bound[id(ref)] = (self.text(te), v)
+            self.stmt(g(o, 'body'), reads)
+            del self.bound[id(ref)]
+            return
+        if self.isa(o, 'InPlaceAssignmentNode'):
+            self.events.append(('<left to the statement node>', 'unchanged'))
+            return
+        for targets, v in self.rhs_phase(o, reads):
+            for t in targets:
+                self.target(t, v, reads)
+
+
+def _norm(v):
+    return (v[0], tuple(_norm(x) for x in v[1])) if v[0] in ('tuple', 'list') else v
+
+
+def rewrite_family():
+    """chained assignments T1 [= T2 [= T3]] = display: every display shape (2..4 items, nested once, list/tuple, a name / an attribute among the items) x every compatible
+    target shape per link (whole, item by item, starred first / last / middle, nested), chains of one and two links completely and a sample of three"""
+    f, g, h, k = ('call', 'f'), ('call', 'g'), ('call', 'h'), ('call', 'k')
+    N = lambda n: ('name', n)
+    rhss = [('tuple', [f, g]), ('tuple', [f, g, h]), ('tuple', [f, ('tuple', [g, h])]), ('tuple', [f, N('n')]), ('tuple', [('attr', 'o', 'p'), g]), ('list', [f, g]),
+            ('tuple', [f, g, h, k]), ('tuple', [('tuple', [f, g]), ('tuple', [h, k])])]
+    out = []
+    for rhs in rhss:
+        n = len(rhs[1])
+
+        def tl(sfx):
+            names = [N(c + sfx) for c in 'abcd'[:n]]
+            shapes = [N('x' + sfx), ('tuple', names), ('tuple', [names[0], ('star', N('s' + sfx))]), ('tuple', [('star', N('s' + sfx)), names[-1]])]
+            if n >= 3:
+                shapes.append(('tuple', [names[0], ('star', N('s' + sfx)), names[-1]]))
+            nested = [('tuple', [N('p%d%d%s' % (i, j, sfx)) for j in range(len(x[1]))]) if x[0] in ('tuple', 'list') else names[i] for i, x in enumerate(rhs[1])]
+            if nested != names:
+                shapes.append(('tuple', nested))
+            return shapes
+        for t1 in tl('1'):
+            out.append(([t1], rhs))
+            for t2 in tl('2'):
+                out.append(([t1, t2], rhs))
+        t3 = tl('3')
+        for t1 in tl('1')[:2]:
+            for t2 in tl('2')[1:3]:
+                out.append(([t1, t2, t3[-1]], rhs))
+    return out
+
+
+def rewrite_check(w, targets, rhs):
+    """-> [(kind, text)]; kinds: error once temp-order inline-order temp-before-set routing | cross-order"""
+    it = w.it
+    it.steps = 0
+    del w.errors[:]
+    ev, stores = [], []
+    v = _ref_eval(rhs, ev)
+    for t in targets:
+        _ref_assign(t, v, stores)
+    tn = [w.expr(t) for t in targets]
+    rn = w.expr(rhs)
+    if len(tn) == 1:
+        node, h = w.node('Nodes', 'SingleAssignmentNode', lhs=tn[0], rhs=rn), 'visit_SingleAssignmentNode'
+    else:
+        node, h = w.node('Nodes', 'CascadedAssignmentNode', lhs_list=tn, rhs=rn), 'visit_CascadedAssignmentNode'
+    pp = Obj(it.cls('ParseTreeTransforms', 'PostParse'))
+    res = it.call(it.getattr(pp, h), [node], {})
+    if w.errors:
+        return [('error', 'the transform reports an error for a valid assignment: %s' % w.errors[0])]
+    te = _TreeEval(it)
+    te.stmt(res)
+    probs = list(te.problems)
+    got = [t for t, c in te.events]
+    if sorted(got) != sorted(ev):
+        probs.append(('once', 'the right-hand side items are evaluated %s, the statement evaluates each of %s exactly once' % (got, ev)))
+    else:
+        for cls, kind in (('temp', 'temp-order'), ('inline', 'inline-order')):
+            sub = [t for t, c in te.events if c == cls]
+            if sub != [t for t in ev if t in sub]:
+                probs.append((kind, 'the %s are evaluated in the order %s, the source order is %s' % (
+                    'temporaries' if cls == 'temp' else 'items left in the partial assignments', sub, [t for t in ev if t in sub])))
+        if not probs and got != ev:
+            probs.append(('cross-order', 'the items are evaluated in the order %s (temporaries first), the source order is %s' % (got, ev)))
+    if sorted((n, _norm(x)) for n, x in te.stores) != sorted((n, _norm(x)) for n, x in stores):
+        probs.append(('routing', 'the targets receive %s instead of %s' % (sorted(te.stores), sorted(stores))))
+    return probs
+
+
+REWRITE_PENDING = ('cross-order',)
+
+
+def rule_rewrite(ctx, part='main', floor=0):
+    """part 'main': everything but the relative order of temporaries and items left inline; part 'cross-order': that (pending finding)"""
+    ix = ctx.index
+    r = Rule('C20-REWRITE' if part == 'main' else 'C20-REWRITE-XORDER',
+             'PostParse flattening of chained/parallel assignments (flatten_parallel_assignments, map_starred_assignment, eliminate_rhs_duplicates, sort_common_subsequences, let stacking): '
+             'on every assignment shape of the family the rewritten tree evaluates each right-hand side item exactly once, temporaries and inline items in source order, '
+             'no temporary before its let, and routes every value to the target CPython gives it to', floor)
+    m = ix.mod('ParseTreeTransforms')
+    pp = ix.cls('ParseTreeTransforms', 'PostParse')
+    fn = pp.methods.get('_visit_assignment_node') or next(iter(pp.methods.values()))
+    w = _RwWorld(ix)
+    worst = {}
+    for targets, rhs in rewrite_family():
+        text = ' = '.join(_show_expr(t) for t in targets) + ' = ' + _show_expr(rhs)
+        try:
+            probs = rewrite_check(w, targets, rhs)
+        except Unmodelled as e:
+            raise AnalysisError('%s: the interpreter of the checker cannot follow the assignment flattening on [%s]: %s (%s)' % (r.id, text, e, getattr(e, 'where', '')))
+        except PyRaise as e:
+            raise AnalysisError('%s: the assignment flattening raises %r on [%s] (%s)' % (r.id, e.value, text, getattr(e, 'where', '')))
+        r.inst(text, sample=text)
+        for kind, msg in probs:
+            if (kind in REWRITE_PENDING) != (part != 'main'):
+                continue
+            if kind not in worst or len(text) < len(worst[kind][0]):
+                worst[kind] = (text, msg)
+    for kind, (text, msg) in sorted(worst.items()):
+        r.violate('ParseTreeTransforms.PostParse._visit_assignment_node:%s' % kind, m.rel, fn.lineno,
+                  'the tree PostParse builds for `%s`: %s' % (text, msg))
+    # positive control: a reversed let stack is seen by the evaluation of the rewritten tree
+    te = _TreeEval(w.it)
+    a, b = w.expr(('call', 'f')), w.expr(('call', 'g'))
+    ra, rb = (w.it.call(w.it.module_global(ix.mod('UtilNodes'), 'LetRefNode'), [x], {}) for x in (a, b))
+    body = w.node('Nodes', 'SingleAssignmentNode', lhs=w.expr(('name', 'x')), rhs=w.node('ExprNodes', 'TupleNode', args=[ra, rb], mult_factor=None))
+    LetNode = w.it.cls('UtilNodes', 'LetNode')
+    tree = w.it.call(LetNode, [rb, w.it.call(LetNode, [ra, body], {})], {})
+    te.stmt(tree)
+    r.positive_control([t for t, c in te.events] == ['g()', 'f()'], 'lets stacked front to back evaluate the temporaries right to left')
+    return r
+
+
+# ---- ExpandInplaceOperators
+def _inplace_ref(lhs, rhs):
+    ev = []
+
+    def val(e):
+        k = e[0]
+        if k == 'call':
+            ev.append((_show_expr(e), 'eval'))
+        elif k == 'attr':
+            val(e[1])
+            ev.append((_show_expr(e), 'get'))
+        elif k == 'index':
+            val(e[1])
+            val(e[2])
+            ev.append((_show_expr(e), 'get'))
+    if lhs[0] == 'attr':
+        val(lhs[1])
+    elif lhs[0] == 'index':
+        val(lhs[1])
+        val(lhs[2])
+    if lhs[0] != 'name':
+        ev.append((_show_expr(lhs), 'get'))
+    val(rhs)
+    ev.append((_show_expr(lhs), 'set'))
+    return ev
+
+
+def inplace_family():
+    N, C = lambda n: ('name', n), lambda f: ('call', f)
+    lhss = [N('x'), ('attr', N('o'), 'a'), ('attr', C('f'), 'a'), ('index', N('o'), C('g')), ('index', C('f'), C('g')), ('index', N('o'), N('i')),
+            ('attr', ('index', C('f'), C('g')), 'a'), ('index', ('attr', C('f'), 'a'), C('g')), ('index', ('index', C('f'), C('g')), C('h')),
+            ('attr', ('attr', C('f'), 'a'), 'b'), ('index', ('index', N('o'), C('g')), N('i')), ('attr', ('attr', N('o'), 'a'), 'b')]
+    return [(l, C('r')) for l in lhss]
+
+
+def inplace_check(w, lhs, rhs):
+    """-> [(kind, text)]; kinds: eval-order eval-once store temp-before-set | read-once"""
+    it = w.it
+    it.steps = 0
+    node = w.node('Nodes', 'InPlaceAssignmentNode', lhs=w.expr(lhs, typed=True), rhs=w.expr(rhs, typed=True), operator='+')
+    env = Obj(StubClass('EnvStub', attrs=dict(directives={})))
+    tr = Obj(it.cls('ParseTreeTransforms', 'ExpandInplaceOperators'), dict(env_stack=[(None, env)]))
+    res = it.call(it.getattr(tr, 'visit_InPlaceAssignmentNode'), [node], {})
+    te = _TreeEval(it)
+    te.stmt(res, reads=True)
+    if te.events == [('<left to the statement node>', 'unchanged')]:
+        return []
+    want = _inplace_ref(lhs, rhs)
+    probs = list(te.problems)
+    calls = [t for t, c in te.events if c in ('temp', 'inline')]
+    wcalls = [t for t, c in want if c == 'eval']
+    if sorted(calls) != sorted(wcalls):
+        probs.append(('eval-once', 'the calls %s are made, the statement makes each of %s exactly once' % (calls, wcalls)))
+    elif calls != wcalls:
+        probs.append(('eval-order', 'the calls are made in the order %s, the source order is %s' % (calls, wcalls)))
+    sets = [t for t, c in te.events if c == 'set']
+    if sets != [_show_expr(lhs)] or te.events[-1][1] != 'set':
+        probs.append(('store', 'the stores are %s (events %s), expected one store to %s at the end' % (sets, te.events, _show_expr(lhs))))
+    if not probs:
+        got = [(t, 'eval' if c in ('temp', 'inline') else c) for t, c in te.events]
+        if got != want:
+            probs.append(('read-once', 'the statement performs %s; CPython performs %s (the primary of the target is read once)' % (
+                ', '.join('%s %s' % (c, t) for t, c in got), ', '.join('%s %s' % (c, t) for t, c in want))))
+    return probs
+
+
+INPLACE_PENDING = ('read-once',)
+
+
+def rule_inplace(ctx, part='main', floor=0):
+    ix = ctx.index
+    r = Rule('C20-INPLACE' if part == 'main' else 'C20-INPLACE-READONCE',
+             'ExpandInplaceOperators: on every target shape of the family (name, attribute, subscript, nested twice; primaries that are names or calls) the expanded statement '
+             'makes the calls of the target and the right-hand side once each, in source order, binds every temporary before its use and stores once, last', floor)
+    m = ix.mod('ParseTreeTransforms')
+    c = ix.cls('ParseTreeTransforms', 'ExpandInplaceOperators')
+    fn = c.methods.get('visit_InPlaceAssignmentNode')
+    if fn is None:
+        raise AnalysisError('ExpandInplaceOperators.visit_InPlaceAssignmentNode vanished')
+    w = _RwWorld(ix)
+    worst = {}
+    for lhs, rhs in inplace_family():
+        text = '%s += %s' % (_show_expr(lhs), _show_expr(rhs))
+        try:
+            probs = inplace_check(w, lhs, rhs)
+        except Unmodelled as e:
+            raise AnalysisError('%s: the interpreter of the checker cannot follow ExpandInplaceOperators on [%s]: %s (%s)' % (r.id, text, e, getattr(e, 'where', '')))
+        except PyRaise as e:
+            raise AnalysisError('%s: ExpandInplaceOperators raises %r on [%s] (%s)' % (r.id, e.value, text, getattr(e, 'where', '')))
+        r.inst(text, sample=text)
+        for kind, msg in probs:
+            if (kind in INPLACE_PENDING) != (part != 'main'):
+                continue
+            if kind not in worst or len(text) < len(worst[kind][0]):
+                worst[kind] = (text, msg)
+    for kind, (text, msg) in sorted(worst.items()):
+        r.violate('ParseTreeTransforms.ExpandInplaceOperators.visit_InPlaceAssignmentNode:%s' % kind, m.rel, fn.lineno, 'the tree built for `%s`: %s' % (text, msg))
+    r.positive_control(_inplace_ref(('index', ('call', 'f'), ('call', 'g')), ('call', 'r')) ==
+                       [('f()', 'eval'), ('g()', 'eval'), ('f()[g()]', 'get'), ('r()', 'eval'), ('f()[g()]', 'set')], 'reference order of f()[g()] += r()')
+    return r
+
+
+# ---- BoolBinopNode / BoolBinopResultNode: the emitted short-circuit skeleton
+_SC_IF = re.compile(r'^if \((!?)\s*(\w+)\) \{$')
+_SC_ASSIGN = re.compile(r'^(\w+) = (\w+);$')
+_SC_ISTRUE = re.compile(r'^(\w+) = __Pyx_PyObject_IsTrue\((\w+)\);')
+
+
+def _sc_world(ix):
+    class Rec:
+        events, nlabel, ntemp = [], 0, 0
+    rec = Rec()
+    rec.events = []
+
+    def new_label(it, self, name=None):
+        rec.nlabel += 1
+        return 'L%d_%s' % (rec.nlabel, name or '')
+
+    def allocate_temp(it, self, type=None, manage_ref=False, *a, **k):
+        rec.ntemp += 1
+        return 't%d' % rec.ntemp
+    none = lambda it, self, *a, **k: None
+    FuncState = StubClass('FuncStateStub', methods=dict(allocate_temp=allocate_temp, release_temp=none))
+    Code = StubClass('CodeStub', methods=dict(new_label=new_label, put_label=lambda it, self, l: rec.events.append(('label', l)), put_goto=lambda it, self, l: rec.events.append(('goto', l)),
+                                               putln=lambda it, self, text='', *a, **k: rec.events.append(('line', text)), put=lambda it, self, text='', *a, **k: rec.events.append(('line', text)),
+                                               mark_pos=none, error_goto_if_neg=lambda it, self, *a, **k: 'ERR', error_goto_if_null=lambda it, self, *a, **k: 'ERR',
+                                               error_goto=lambda it, self, *a, **k: 'ERR'))
+    TypeStub = StubClass('TypeStub', attrs=dict(is_pyobject=True))
+    Leaf = StubClass('LeafStub', methods=dict(generate_evaluation_code=lambda it, self, code: rec.events.append(('eval', self.attrs['$tag'])),
+                                               generate_disposal_code=lambda it, self, code: rec.events.append(('dispose', self.attrs['$tag'])), free_temps=none, make_owned_reference=none,
+                                               generate_post_assignment_code=none, result=lambda it, self: self.attrs['$tag'], py_result=lambda it, self: self.attrs['$tag'],
+                                               result_as=lambda it, self, t=None: self.attrs['$tag']))
+    overrides = {('ExprNode', 'allocate_temp_result'): lambda it, self, code: self.attrs.__setitem__('temp_code', 'RESULT'),
+                 ('ExprNode', 'result'): lambda it, self: self.attrs.get('temp_code', '?'), ('ExprNode', 'release_temp_result'): none}
+    types = {'*': lambda name: Obj(TypeStub, {'$tag': name})}
+    it = MiniPy(ix, stub_modules={'PyrexTypes': types, 'Builtin': types}, family_overrides=overrides)
+    return it, rec, dict(Code=Code, FuncState=FuncState, TypeStub=TypeStub, Leaf=Leaf)
+
+
+def _sc_build(it, K, tree, pyobj):
+    typ = Obj(K['TypeStub'], dict(is_pyobject=pyobj))
+    pos = ('scenario.py', 1, 0)
+    if isinstance(tree, int):
+        arg = Obj(K['Leaf'], {'$tag': 'a%d' % tree, 'type': typ, 'pos': pos})
+        val = Obj(K['Leaf'], {'$tag': 'v%d' % tree, 'type': typ, 'pos': pos})
+        return Obj(it.cls('ExprNodes', 'BoolBinopResultNode'), dict(arg=arg, value=val, type=typ, pos=pos))
+    op, l, r = tree
+    return Obj(it.cls('ExprNodes', 'BoolBinopNode'), dict(operator=op, operand1=_sc_build(it, K, l, pyobj), operand2=_sc_build(it, K, r, pyobj), type=typ, pos=pos))
+
+
+def sc_run(events, truth):
+    """execute the emitted statement skeleton for one valuation of the operands -> (operands evaluated, in order; operand whose value becomes the result)"""
+    labels = {e[1]: i for i, e in enumerate(events) if e[0] == 'label'}
+    stack, match_else, match_end = [], {}, {}
+    for i, e in enumerate(events):
+        if e[0] != 'line':
+            continue
+        t = e[1].strip()
+        if _SC_IF.match(t):
+            stack.append(i)
+        elif t == '} else {':
+            if not stack:
+                raise Unmodelled('unbalanced braces in the emitted code')
+            match_else[stack[-1]] = i
+        elif t == '}':
+            if not stack:
+                raise Unmodelled('unbalanced braces in the emitted code')
+            j = stack.pop()
+            match_end[j] = i
+            if j in match_else:
+                match_end[match_else[j]] = i
+    if stack:
+        raise Unmodelled('unbalanced braces in the emitted code')
+    temps, order, result = {}, [], None
+    pc = steps = 0
+    while pc < len(events):
+        steps += 1
+        if steps > 400:
+            return order, 'the emitted code jumps backwards (loops)'
+        e = events[pc]
+        if e[0] == 'eval' and e[1].startswith('a'):
+            order.append(int(e[1][1:]))
+        elif e[0] == 'goto':
+            if e[1] not in labels:
+                return order, 'goto a label that is never placed'
+            pc = labels[e[1]]
+            continue
+        elif e[0] == 'line':
+            t = e[1].strip()
+            m = _SC_IF.match(t)
+            if m:
+                name = temps.get(m.group(2), m.group(2))
+                if not re.match(r'^a\d+$', name):
+                    raise Unmodelled('the emitted test reads %s' % name)
+                v = truth[int(name[1:])] != bool(m.group(1))
+                if not v:
+                    pc = (match_else[pc] if pc in match_else else match_end[pc]) + 1
+                    continue
+            elif t == '} else {':
+                pc = match_end[pc] + 1
+                continue
+            elif t != '}':
+                m2, m3 = _SC_ISTRUE.match(t), _SC_ASSIGN.match(t)
+                if m2:
+                    temps[m2.group(1)] = m2.group(2)
+                elif m3 and m3.group(1) == 'RESULT':
+                    result = int(m3.group(2)[1:]) if re.match(r'^v\d+$', m3.group(2)) else m3.group(2)
+                elif '{' in t or '}' in t or 'goto' in t:
+                    raise Unmodelled('emitted line %r' % t)
+        pc += 1
+    return order, result
+
+
+def sc_python(tree, truth):
+    order = []
+
+    def ev(t):
+        if isinstance(t, int):
+            order.append(t)
+            return t
+        op, l, r = t
+        x = ev(l)
+        return ev(r) if (op == 'and') == truth[x] else x
+    return order, ev(tree)
+
+
+def sc_shapes(n, start=0):
+    if n == 1:
+        return [start]
+    return [(op, l, r) for k in range(1, n) for l in sc_shapes(k, start) for r in sc_shapes(n - k, start + k) for op in ('and', 'or')]
+
+
+def _sc_show(t):
+    return 'x%d' % t if isinstance(t, int) else '(%s %s %s)' % (_sc_show(t[1]), t[0], _sc_show(t[2]))
+
+
+def rule_short(ctx, floor=90):
+    ix = ctx.index
+    r = Rule('C20-SHORT', 'BoolBinopNode / BoolBinopResultNode: for every and/or tree with up to four operands (object and C result type) and every truth valuation, the emitted '
+             'if/goto skeleton evaluates exactly the operands Python evaluates, in the same order, and yields the value of the same operand', floor)
+    c = ix.cls('ExprNodes', 'BoolBinopNode')
+    fn = c.methods.get('generate_bool_evaluation_code') or c.methods.get('generate_evaluation_code')
+    if fn is None:
+        raise AnalysisError('BoolBinopNode.generate_evaluation_code vanished')
+    it, rec, K = _sc_world(ix)
+    worst = None
+    for n in (2, 3, 4):
+        for tree in sc_shapes(n):
+            for pyobj in (True, False):
+                del rec.events[:]
+                rec.nlabel = rec.ntemp = 0
+                it.steps = 0
+                node = _sc_build(it, K, tree, pyobj)
+                code = Obj(K['Code'], dict(funcstate=Obj(K['FuncState'])))
+                text = '%s [%s]' % (_sc_show(tree), 'object' if pyobj else 'C')
+                try:
+                    it.call(it.getattr(node, 'generate_evaluation_code'), [code], {})
+                    events = list(rec.events)
+                    bad = None
+                    for vals in itertools.product((False, True), repeat=n):
+                        want, got = sc_python(tree, vals), sc_run(events, vals)
+                        if tuple(got) != tuple(want):
+                            bad = (vals, got, want)
+                            break
+                except Unmodelled as e:
+                    raise AnalysisError('C20-SHORT: the interpreter of the checker cannot follow the code generator on %s: %s (%s)' % (text, e, getattr(e, 'where', '')))
+                except PyRaise as e:
+                    raise AnalysisError('C20-SHORT: the code generator raises %r on %s (%s)' % (e.value, text, getattr(e, 'where', '')))
+                r.inst(text, sample=text)
+                if bad and (worst is None or len(text) < len(worst[0])):
+                    worst = (text, bad)
+    if worst:
+        text, (vals, got, want) = worst
+        r.violate('ExprNodes.BoolBinopNode.generate_evaluation_code:short-circuit', c.module.rel, fn.lineno,
+                  'the code emitted for %s with operand truth values %s evaluates the operands %s and yields %s; Python evaluates %s and yields the value of x%s: '
+                  'short-circuiting stops at the wrong operand' % (text, list(vals), ['x%d' % i for i in got[0]], ('the value of x%d' % got[1]) if isinstance(got[1], int) else got[1],
+                                                                   ['x%d' % i for i in want[0]], want[1]))
+    ev = [('eval', 'a0'), ('line', 'if (!a0) {'), ('goto', 'L1'), ('line', '} else {'), ('line', 'RESULT = v0;'), ('goto', 'L2'), ('line', '}'), ('label', 'L1'), ('eval', 'a1'), ('line', 'RESULT = v1;'), ('label', 'L2')]
+    r.positive_control(tuple(sc_run(ev, (True, True))) != tuple(sc_python(('and', 0, 1), (True, True))), 'an `and` emitted with the test of `or` is rejected')
+    return r
+
+
+# ================================================================================================================ C20-LISTDIR
+# A child list of a node (args of a display or call, key_value_pairs, stats of a parallel assignment, lhs_list ...) is in source order.  A code generator that asks
+# the elements for their evaluation / assignment code in a loop emits that code in iteration order, so the loop must run front to back.
+EVAL_REQUESTS = ('generate_evaluation_code', 'generate_rhs_evaluation_code', 'generate_assignment_code', 'generate_execution_code', 'generate_subexpr_evaluation_code',
+                 'generate_bool_evaluation_code', 'generate_deletion_code')
+
+
+def _listdir_sites(ix, c, fn):
+    """-> [(For node, child attribute, polarity ASC|DESC|None)] for the loops of one method that request evaluation code from the elements of a child list"""
+    aliases = {}
+    for n in walk_no_nested(fn):
+        if isinstance(n, ast.Assign) and len(n.targets) == 1 and isinstance(n.targets[0], ast.Name):
+            aliases.setdefault(n.targets[0].id, []).append(n.value)
+    selfname = fn.args.args[0].arg if fn.args.args else 'self'
+    kids = set()
+    for nm in ('child_attrs', 'subexprs'):
+        a = ix.class_list_attr(c, nm)
+        if a and a[1]:
+            kids.update(a[1])
+
+    def child_attr(e, depth=0):
+        if isinstance(e, ast.Attribute) and isinstance(e.value, ast.Name) and e.value.id == selfname and e.attr in kids:
+            return e.attr
+        if isinstance(e, ast.Call) and isinstance(e.func, ast.Attribute) and isinstance(e.func.value, ast.Name) and e.func.value.id == selfname and e.func.attr == 'subexpr_nodes':
+            return 'subexpr_nodes()'
+        if isinstance(e, ast.Name) and depth < 3 and len(aliases.get(e.id, ())) == 1:
+            return child_attr(aliases[e.id][0], depth + 1)
+        if isinstance(e, ast.Call) and isinstance(e.func, ast.Name) and e.func.id in ('len', 'list', 'tuple') and len(e.args) == 1:
+            return child_attr(e.args[0], depth)
+        if isinstance(e, ast.Call) and isinstance(e.func, ast.Name) and e.func.id == 'range' and e.args:
+            return child_attr(e.args[-1] if len(e.args) == 1 else e.args[1], depth)
+        return None
+    out = []
+    for n in walk_no_nested(fn):
+        if not isinstance(n, ast.For):
+            continue
+        tnames = {x.id for x in ast.walk(n.target) if isinstance(x, ast.Name)}
+        asks = False
+        for x in ast.walk(n):
+            if isinstance(x, ast.Call) and isinstance(x.func, ast.Attribute) and x.func.attr in EVAL_REQUESTS:
+                recv = x.func.value
+                names = {y.id for y in ast.walk(recv) if isinstance(y, ast.Name)}
+                if names & tnames and selfname not in {y.id for y in ast.walk(recv) if isinstance(y, ast.Name) and not isinstance(recv, ast.Subscript)}:
+                    asks = True
+                elif isinstance(recv, ast.Subscript) and names & tnames:
+                    asks = True
+        if not asks:
+            continue
+        it_expr = n.iter
+        # self.subexpr_nodes() (the default iteration over the operands) is a source list like an attribute
+        class _Sub(ast.NodeTransformer):
+            def visit_Call(self, x):
+                self.generic_visit(x)
+                if child_attr(x) == 'subexpr_nodes()':
+                    return ast.copy_location(ast.Attribute(value=ast.Name(id=selfname, ctx=ast.Load()), attr='subexpr_nodes()', ctx=ast.Load()), x)
+                return x
+        import copy as _copy
+        it_expr = _Sub().visit(_copy.deepcopy(it_expr))
+        kind, srcs, pol = _iter_shape(it_expr)
+        attrs = [('subexpr_nodes()' if isinstance(s, ast.Attribute) and s.attr == 'subexpr_nodes()' else child_attr(s)) for s in srcs]
+        attrs = [a for a in attrs if a]
+        if attrs:
+            out.append((n, attrs[0], pol))
+        elif kind == 'other' and any(child_attr(x) for x in ast.walk(n.iter) if isinstance(x, (ast.Attribute, ast.Name))):
+            out.append((n, next(child_attr(x) for x in ast.walk(n.iter) if isinstance(x, (ast.Attribute, ast.Name)) and child_attr(x)), None))
+    return out
+
+
+def rule_listdir(ctx, floor=19):
+    ix = ctx.index
+    r = Rule('C20-LISTDIR', 'code generators that request evaluation / assignment code from the elements of a child list in a loop (display items, call arguments, dict items, '
+             'constituent assignments, cascaded targets, default sub-expressions) iterate the list front to back', floor)
+    for ms in ('ExprNodes', 'Nodes', 'UtilNodes'):
+        m = ix.mod(ms)
+        for c in sorted(m.classes.values(), key=lambda c: c.name):
+            for name, fn in sorted(c.methods.items()):
+                if not name.startswith('generate_'):
+                    continue
+                seen = {}
+                for fornode, attr, pol in _listdir_sites(ix, c, fn):
+                    i = seen[attr] = seen.get(attr, -1) + 1
+                    key = '%s.%s:%s%s' % (c.qual, name, attr, '#%d' % i if i else '')
+                    r.inst(key, sample='%s: for %s in %s' % (key, ast.unparse(fornode.target), ast.unparse(fornode.iter)), nontrivial=pol is not None)
+                    if pol is None:
+                        r.info('not decided: %s (iteration `%s` not understood)' % (key, ast.unparse(fornode.iter)))
+                    elif pol == 'DESC':
+                        r.violate(key, m.rel, fornode.lineno, '%s.%s walks the child list %s back to front (`for %s in %s`) while asking its elements for their evaluation / assignment code: '
+                                  'the sub-expressions of the list are evaluated right to left' % (c.name, name, attr, ast.unparse(fornode.target), ast.unparse(fornode.iter)))
+    pc = ast.parse("class X:\n    child_attrs = ['stats']\n    def generate_execution_code(self, code):\n        for stat in reversed(self.stats):\n            stat.generate_rhs_evaluation_code(code)\n")
+
+    class _Ix:
+        def class_list_attr(self, c, nm):
+            return (c, ['stats']) if nm == 'child_attrs' else None
+    r.positive_control([p for _, _, p in _listdir_sites(_Ix(), None, pc.body[0].body[1])] == ['DESC'], 'reversed(self.stats) recognised')
+    return r
+
+
+# ================================================================================================================ C20-KWMAP
+# GeneralCallNode.map_to_simple_call_node: keyword arguments of a call to a C function are mapped to the declared positional parameters.  Decided on the complete family of
+# calls to a function with 3 and 4 declared parameters: every split into positional / keyword arguments, every order of the keywords, every argument simple or not.
+def kwmap_family():
+    out = []
+    for n, pcounts in ((3, (0, 1, 2)), (4, (1, 2))):
+        names = ['p%d' % i for i in range(n)]
+        for p in pcounts:
+            for perm in itertools.permutations(names[p:]):
+                for flags in itertools.product((True, False), repeat=n):
+                    if all(flags):
+                        continue            # nothing with a side effect
+                    out.append((names, p, perm, flags))
+    return out
+
+
+def kwmap_check(w, names, p, perm, flags):
+    """-> None when the call is left alone, else [(kind, text)]"""
+    it = w.it
+    it.steps = 0
+    del w.errors[:]
+    Leaf = w.leaf_cls
+    simple = dict(zip(names, flags))
+    args = {nm: Obj(Leaf, {'$tag': 'e_%s' % nm, '$simple': simple[nm], 'pos': w.pos, 'type': w.pytype}) for nm in names}
+    written = names[:p] + list(perm)
+    want = ['e_%s' % nm for nm in written if not simple[nm]]
+    pos_tuple = w.node('ExprNodes', 'TupleNode', args=[args[nm] for nm in names[:p]], mult_factor=None)
+    Str = StubClass('KeyStub')
+    items = [w.node('ExprNodes', 'DictItemNode', key=Obj(Str, {'value': nm, 'pos': w.pos}), value=args[nm]) for nm in perm]
+    kw = w.node('ExprNodes', 'DictNode', key_value_pairs=items)
+    ArgDecl = StubClass('ArgDeclStub')
+    ftype = Obj(StubClass('FuncTypeStub', attrs=dict(is_ptr=False, is_cfunction=True)), {'args': [Obj(ArgDecl, {'name': nm}) for nm in names]})
+    entry = Obj(StubClass('EntryStub', attrs=dict(is_cmethod=False, as_variable=None)), {'type': ftype})
+    fnode = w.node('ExprNodes', 'NameNode', name='cfunc', entry=entry)
+    call = w.node('ExprNodes', 'GeneralCallNode', function=fnode, positional_args=pos_tuple, keyword_args=kw)
+    res = it.call(it.getattr(call, 'map_to_simple_call_node'), [], {})
+    if res is call or res is None:
+        return None
+    if w.errors:
+        return [('error', 'an error is reported for a valid call: %s' % w.errors[0])]
+    g = it.getattr
+    isa = lambda o, nm: isinstance(o, Obj) and nm in it.mro_names(o.cls)
+    order, bound, probs = [], {}, []
+    node = res
+    while isa(node, 'EvalWithTempExprNode'):
+        te = g(node, 'temp_expression')
+        if isa(te, 'ResultRefNode') or not isinstance(te, Obj) or te.cls is not Leaf:
+            raise Unmodelled('temporary of an unexpected expression')
+        if not te.attrs['$simple']:
+            order.append(te.attrs['$tag'])          # a temporary for a simple argument is harmless
+        bound[id(g(node, 'lazy_temp'))] = te
+        node = g(node, 'subexpression')
+    if not isa(node, 'SimpleCallNode'):
+        raise Unmodelled('result is not a SimpleCallNode')
+    final = []
+    for a in g(node, 'args'):
+        if isa(a, 'ResultRefNode'):
+            if id(a) not in bound:
+                probs.append(('temp-unbound', 'an argument refers to a temporary that no EvalWithTempExprNode computes'))
+                final.append(g(a, 'expression'))
+            else:
+                final.append(bound[id(a)])
+        else:
+            if not a.attrs['$simple']:
+                order.append(a.attrs['$tag'])
+            final.append(a)
+    tags = [a.attrs.get('$tag') for a in final]
+    if tags != ['e_%s' % nm for nm in names[:len(tags)]] or len(tags) != len(names):
+        probs.append(('routing', 'the parameters (%s) receive %s' % (', '.join(names), tags)))
+    if sorted(order) != sorted(want):
+        probs.append(('once', 'the non-simple arguments are evaluated %s, the call evaluates each of %s exactly once' % (order, want)))
+    elif order != want:
+        probs.append(('order', 'the non-simple arguments are evaluated in the order %s, the call is written %s' % (order, want)))
+    return probs
+
+
+KWMAP_PENDING = ('routing',)
+
+
+def rule_kwmap(ctx, part='main', floor=150):
+    """part 'main': evaluation order / exactly once / temporaries bound; part 'routing' (pending finding): every parameter receives the argument that names it"""
+    ix = ctx.index
+    r = Rule('C20-KWMAP' if part == 'main' else 'C20-KWMAP-ROUTING', 'GeneralCallNode.map_to_simple_call_node on every call of the family (3 and 4 declared parameters x positional/keyword split x keyword order x simple / non-simple '
+             'arguments): each non-simple argument is evaluated exactly once, in the order the call is written, and reaches the parameter it names', floor)
+    c = ix.cls('ExprNodes', 'GeneralCallNode')
+    fn = c.methods.get('map_to_simple_call_node')
+    if fn is None:
+        raise AnalysisError('GeneralCallNode.map_to_simple_call_node vanished')
+    w = _RwWorld(ix)
+    w.leaf_cls = StubClass('ArgLeaf', methods=dict(is_simple=lambda it, self: self.attrs['$simple']))
+    worst, mapped = {}, 0
+    for names, p, perm, flags in kwmap_family():
+        text = 'cfunc(%s)' % ', '.join(['%s%s' % ('n' if flags[i] else 'f', i) + ('' if flags[i] else '()') for i in range(p)] +
+                                        ['%s=%s%d%s' % (nm, 'n' if flags[names.index(nm)] else 'f', names.index(nm), '' if flags[names.index(nm)] else '()') for nm in perm])
+        try:
+            probs = kwmap_check(w, names, p, perm, flags)
+        except Unmodelled as e:
+            raise AnalysisError('C20-KWMAP: the interpreter of the checker cannot follow map_to_simple_call_node on [%s]: %s (%s)' % (text, e, getattr(e, 'where', '')))
+        except PyRaise as e:
+            raise AnalysisError('C20-KWMAP: map_to_simple_call_node raises %r on [%s] (%s)' % (e.value, text, getattr(e, 'where', '')))
+        if probs is None:
+            r.info('left to the Python call protocol: %s' % text)
+            continue
+        mapped += 1
+        r.inst(text, sample=text)
+        for kind, msg in probs:
+            if (kind in KWMAP_PENDING) != (part != 'main'):
+                continue
+            if kind not in worst or len(text) < len(worst[kind][0]):
+                worst[kind] = (text, msg)
+    for kind, (text, msg) in sorted(worst.items()):
+        r.violate('ExprNodes.GeneralCallNode.map_to_simple_call_node:%s' % kind, c.module.rel, fn.lineno, 'the call built for `%s` (cdef cfunc(%s)): %s' % (text, 'p0, p1, ...', msg))
+    r.positive_control(len(kwmap_family()) > 150 and mapped > 0, 'family enumerated and mapped')
+    return r
